@@ -491,7 +491,7 @@ type rleaf struct {
 }
 
 func (l rleaf) result() Result {
-	return Result{T: l.key.T, Impl: l.impl, Name: l.key.Name, Group: l.key.Group, Flatten: l.flatten, N: l.n, Nil: l.nilsl, Slice: l.slice, Zero: l.zero && !l.flatten && !l.slice, SlT: l.slt}
+	return Result{T: l.key.T, Impl: l.impl, Name: l.key.Name, Group: l.key.Group, Flatten: l.flatten, N: l.n, Nil: l.nilsl, Slice: l.slice, Zero: l.zero, SlT: l.slt}
 }
 
 func (g *gen) encodeResults(leaves []rleaf, forceObj bool) []Result {
@@ -675,7 +675,7 @@ func (g *gen) genProvide(s int) Op {
 			}
 			usedHere[l.key] = true
 		}
-		l.zero = !l.flatten && g.pct(g.k.PZeroRes, lbl+"zero")
+		l.zero = g.pct(g.k.PZeroRes, lbl+"zero") // flatten: the first element is zero
 		rl = append(rl, l)
 	}
 	if useAs {
@@ -973,6 +973,7 @@ func (g *gen) genDecorate(s int) (Op, bool) {
 			if isIface(k.T) {
 				l.impl = g.pickStr(Impls[k.T], lbl+"impl")
 			}
+			l.zero = g.pct(g.k.PZeroRes, lbl+"zero")
 			if g.pct(g.k.PNamedSlice*3, lbl+"nsl") {
 				l.slt = g.pickStr([]string{"A", "B"}, lbl+"nslv")
 				if g.decoSlt == nil {
